@@ -135,6 +135,12 @@ class FilterStore(Store[T]):
         """Get an item out of the store that satisfies ``filter``"""
         return FilterStoreGet(self, filter)
 
+    def _trigger_get(self, put_event):
+        # a request whose filter matches no item must not block later requests
+        self.get_queue = [
+            event for event in self.get_queue if not self._do_get(event)
+        ]
+
     def _do_get(self, event: FilterStoreGet):
         event_filter = event.filter
         try:
